@@ -35,6 +35,11 @@ def check(run):
             run.rule("C06-slots", "a slot taken in a class is reserved in all its bases and propagated to all covariant classes, whatever root is allocated first", floor=10)
         crules.reserve_rules(run, "C06-slots", ast)
         crules.alloc_rules(run, "C06-slots", ast)
+        # whatever the order of registrations and unregistrations, update sees every live registration: the catalog operations
+        # keep the list linked in every list-shape case (removing the FIRST registration is just one of the cases)
+        if "C06-catalog" not in run.rules:
+            run.rule("C06-catalog", "the registration catalogs stay correctly linked whichever element (first, interior, last, only) is removed and whatever is appended afterwards", floor=30)
+        crules.list_rules(run, "C06-catalog", "C06-catalog", "C06-catalog", "C06-catalog", ast)
     run.assumptions += ["C06 quantifies over permutations of the registration lists (2-safety): the rules are the structural reasons a position cannot leak at the "
                         "sites where candidates are compared or records merged; equality of outcomes over all permutations is not mechanised",
                         "best() folds a relation that is not transitive for unrelated positions: order-independence of the fold is NOT decided"]
